@@ -130,8 +130,8 @@ Print Assumptions C26_nested_variable_refuted.
                                   validation's FieldsInSetCanMerge.  A proposition; rd_alias_consistent d = true (a
                                   response key names one field throughout the document) is a decidable sufficient
                                   condition (C26_mergeable_of_alias_consistent).  Without it the statement is false of
-                                  the model: for `{ x: a { ... on I { k } } x: b { k } }` the executor completes k with the
-                                  type of B.k on an object of type A.
+                                  the model (C26_mergeable_needed: for the invalid `{ x: a { j } x: b { k } }` the executor
+                                  completes k with the type of B.k on an object of type A).
    The typed document itself is td_build's (Run/TypedDoc.v: valid documents; C18 is about the real construction). *)
 
 (* the fuel handed to the executor, to collect_fields and to argument coercion always suffices *)
@@ -244,3 +244,15 @@ Example C26_hypotheses_nonvacuous :
     rd_acyclic d = true /\ rd_mergeable x_nv_schema d /\
     rt_fields_propagate (ref_root_fields x_nv_schema d vars root x_nv_world) = false.
 Proof. exact c26_hyps_nonvacuous. Qed.
+
+(* rd_mergeable cannot be dropped: an (invalid) document whose two fields of response key x do not merge, on which the
+   model and the reference differ although all other hypotheses hold *)
+Example C26_mergeable_needed :
+  (exists d, td_build x_mg_schema x_mg_doc = Some d /\ sch_exec_wf x_mg_schema = true /\
+             known_covariant x_mg_schema d = false /\ rd_acyclic d = true /\ rd_alias_consistent d = false) /\
+  fst (execute_request x_mg_schema x_mg_doc [] x_mg_world) =
+    EoResponse {| er_data := Some [(xs "x", JObj [(xs "j", JInt 1); (xs "k", JStr (xs "s"))])]; er_errors := [] |} /\
+  ref_execute x_mg_schema x_mg_doc [] x_mg_world =
+    EoResponse {| er_data := Some [(xs "x", JObj [(xs "j", JInt 1); (xs "k", JNull)])];
+                  er_errors := [{| ge_class := EcLeaf; ge_path := [PsKey (xs "x"); PsKey (xs "k")] |}] |}.
+Proof. exact c26_mergeable_needed. Qed.
